@@ -391,6 +391,9 @@ impl Parse for ConversionsAttribute {
                     parse_inner(ahead, &mut out.ref_mut)?;
                 }
                 _ => {
+                    if !out.owned.tys.empty_or_trailing() {
+                        return Err(input.error("expected `,`"));
+                    }
                     let ty = input.parse::<syn::Type>()?;
                     let _ = top_level_type.get_or_insert_with(|| ty.clone());
                     out.owned.tys.push_value(ty);
